@@ -101,6 +101,8 @@ class UserAddNode(ActionGroup):
             pos_keys = pos_key if isinstance(pos_key, list) else [pos_key]
             if pixels is None and not all(key in attributes for key in pos_keys):
                 raise ValueError(f"Must provide position or segmentation for node {node}")
+            if pixels is not None and tracks.segmentation is None:
+                raise ValueError("Cannot set pixels when segmentation is None")
 
         # check if you are adding a node to a track that divided previously
         if pred is not None and self.tracks.graph.out_degree(pred) == 2:
